@@ -137,6 +137,11 @@ func (e *eventV2) Sign(signingName string, keyID KeyID, privateKey ed25519.Priva
 }
 
 func newEventFromUntrustedJSONV2(eventJSON []byte, roomVersion IRoomVersion) (PDU, error) {
+	// The path-based readers used below find members in text that is not JSON
+	// at all, and do not agree with each other on what they find there.
+	if !gjson.ValidBytes(eventJSON) {
+		return nil, BadJSONError{fmt.Errorf("gomatrixserverlib: event is not valid JSON")}
+	}
 	if r := gjson.GetBytes(eventJSON, "_*"); r.Exists() {
 		return nil, fmt.Errorf("gomatrixserverlib NewEventFromUntrustedJSON: found top-level '_' key, is this a headered event: %v", string(eventJSON))
 	}
